@@ -54,6 +54,9 @@ type c11Case struct {
 	// poll outstanding, re-poll as soon as the previous poll is answered) while the
 	// backend stays silent for 16 s, then sends a message, and another at 20.6 s.
 	Quiet int `json:"quiet,omitempty"`
+	// PauseMs > 0: the backend does not read for that long after the upgrade and then
+	// resumes; meanwhile the client posts more than socket buffers and queue absorb.
+	PauseMs int `json:"pause_ms,omitempty"`
 }
 
 type c11Spec struct {
@@ -105,7 +108,7 @@ func c11Main(specBytes []byte) {
 	var wg sync.WaitGroup
 	for _, c := range spec.Cases {
 		c := c
-		if c.Quiet > 0 { // mostly waiting: does not take one of the parallel slots
+		if c.Quiet > 0 || c.PauseMs > 0 { // mostly waiting: does not take one of the parallel slots
 			wg.Add(1)
 			go func() {
 				defer wg.Done()
@@ -493,6 +496,10 @@ func c11Run(b *shimBackend, c c11Case) (res c11Result) {
 	}
 	if c.Quiet > 0 {
 		c11Quiet(b, c, h, &res, violate, timedOut)
+		return
+	}
+	if c.PauseMs > 0 {
+		c11Pause(b, c, rng, h, &res, violate, timedOut)
 		return
 	}
 	version := c.Version
@@ -1025,6 +1032,124 @@ func c11Quiet(b *shimBackend, c c11Case, h http.Handler, res *c11Result, violate
 		shimPost(h, "close", nil, shimIDBody(s.id), shimBoundCall)
 	}
 	res.PollShape = fmt.Sprintf("quiet:%v", qs[0].statuses)
+}
+
+// c11Pause: the backend is busy (reads nothing) for c.PauseMs and then carries
+// on. Meanwhile the client posts a 12 MiB message (the writer parks in its TCP
+// write), ten small ones (the queue is full) and further posts that have to
+// wait for room. Posting goes on whatever the answers are, as a browser's
+// would. What the backend finally receives must be a gap-free prefix of what
+// was posted - no message may arrive after one that was lost - and every post
+// that was answered 200 must be in it.
+func c11Pause(b *shimBackend, c c11Case, rng *rand.Rand, h http.Handler, res *c11Result, violate func(sig, msg string), timedOut func()) {
+	token := c.ID + "-p"
+	id, bc, a := shimOpen(h, b, token, "/socket/"+c.ID, 1, [2]string{"X-Verif-Pause", "90000"})
+	if id == "" || bc == nil {
+		violate("C11:open-failed", fmt.Sprintf("open answered %d %s", a.Status, shimTrunc(string(a.Body), 200)))
+		return
+	}
+	defer b.forget(token)
+	type post struct {
+		from, n, status int
+		ms              int64
+	}
+	var sent []shimMsg
+	var posts []post
+	t0 := time.Now()
+	doPost := func(ms []shimMsg) bool {
+		var items []map[string]interface{}
+		for _, m := range ms {
+			items = append(items, map[string]interface{}{"id": id, "msg": shimWire(m, 1)})
+		}
+		body, _ := json.Marshal(items)
+		p := post{from: len(sent), n: len(ms)}
+		sent = append(sent, ms...)
+		d := shimPost(h, "data", nil, body, 120*time.Second)
+		p.status, p.ms = d.Status, time.Since(t0).Milliseconds()
+		posts = append(posts, p)
+		res.Posts++
+		if d.Panic != "" {
+			violate("C11:panic:"+shimSlug(d.Panic), "data post panicked: "+d.Panic)
+			return false
+		}
+		if !d.Answered {
+			timedOut()
+			violate("C11:data-post-unanswered", fmt.Sprintf("data post of %d messages to a backend that pauses for %d ms not answered within 120s", len(ms), c.PauseMs))
+			return false
+		}
+		return true
+	}
+	small := func(n int) []shimMsg {
+		out := make([]shimMsg, n)
+		for i := range out {
+			out[i] = shimMsg{websocket.TextMessage, []byte(fmt.Sprintf("message %d behind a busy backend %s", len(sent)+i, c11Text(rng, rng.Intn(40))))}
+		}
+		return out
+	}
+	big := shimMsg{websocket.TextMessage, bytes.Repeat([]byte("0123456789abcdef"), 12<<16)} // 12 MiB: more than the socket buffers take
+	ok := doPost([]shimMsg{big}) && doPost(small(10))
+	// writer parked, queue full: from here the backend stays busy for another c.PauseMs
+	tFull := time.Now()
+	go func() {
+		time.Sleep(time.Duration(c.PauseMs) * time.Millisecond)
+		bc.resumeNow()
+	}()
+	defer bc.resumeNow()
+	for i := 0; ok && i < 3+rng.Intn(3); i++ { // these wait for room, each in its own post
+		ok = doPost(small(1 + rng.Intn(4)))
+	}
+	if !ok {
+		return
+	}
+	for time.Since(tFull) < time.Duration(c.PauseMs+500)*time.Millisecond { // the backend is reading again
+		time.Sleep(50 * time.Millisecond)
+	}
+	if !doPost(small(2)) || !doPost([]shimMsg{{websocket.TextMessage, c11EndText}}) {
+		return
+	}
+	if posts[len(posts)-1].status == 200 {
+		if !bc.waitRecv(func(r []shimMsg) bool { return len(r) > 0 && bytes.Equal(r[len(r)-1].D, c11EndText) }, 60*time.Second) {
+			timedOut()
+		}
+	} else {
+		time.Sleep(2 * time.Second)
+	}
+	got := bc.received()
+	res.C2S += len(got)
+	for _, m := range got {
+		res.Bytes += int64(len(m.D))
+	}
+	var hist []string
+	for _, p := range posts {
+		hist = append(hist, fmt.Sprintf("#%d..%d->%d@%.1fs", p.from, p.from+p.n-1, p.status, float64(p.ms)/1000))
+	}
+	what := fmt.Sprintf("backend busy (not reading) until %d ms after the client queue was full, then reading again; posts (messages -> status @ time answered): %v; backend received %d of %d messages", c.PauseMs, hist, len(got), len(sent))
+	// gap-free: got must be a prefix of sent
+	for i, g := range got {
+		if i >= len(sent) || c11Same(sent[i], g) != "" {
+			at := -1
+			for j := range sent {
+				if c11Same(sent[j], g) == "" {
+					at = j
+					break
+				}
+			}
+			if at > i {
+				violate("C11:client-to-server:hole-in-stream", fmt.Sprintf("%s: message #%d arrived in position %d - messages #%d..#%d were lost and later ones delivered", what, at, i, i, at-1))
+			} else {
+				violate("C11:client-to-server:payload-altered:text", fmt.Sprintf("%s: position %d is not message #%d", what, i, i))
+			}
+			return
+		}
+	}
+	for _, p := range posts {
+		if p.status == 200 && p.from+p.n > len(got) {
+			violate("C11:client-to-server:lost", fmt.Sprintf("%s: the post of messages #%d..#%d was answered 200 but only %d messages arrived", what, p.from, p.from+p.n-1, len(got)))
+			return
+		}
+	}
+	res.PollShape = "pause:" + strings.Join(hist, " ")
+	shimPost(h, "close", nil, shimIDBody(id), shimBoundCall)
 }
 
 // c11EndFirstSession carries one message each way over session A and ends
